@@ -278,9 +278,86 @@ def with_to_try(idx, mod, fi, stmts, counter):
     return out
 
 
+def _sentinels(idx):
+    """module-level `S = object()` placeholders used for one attribute only: {(module name, S): attr}.  Every mention of S in the
+    repository is its definition, the value of a store `<x>.attr = S` inside an __init__, or an operand of `<x>.attr is [not] S`."""
+    memo = getattr(idx, "_sentinel_memo", None)
+    if memo is not None:
+        return memo
+    out = {}
+    for m in idx.modules.values():
+        for st in m.tree.body:
+            if isinstance(st, ast.Assign) and len(st.targets) == 1 and isinstance(st.targets[0], ast.Name) and isinstance(st.value, ast.Call) \
+                    and isinstance(st.value.func, ast.Name) and st.value.func.id == "object" and not st.value.args and not st.value.keywords:
+                name = st.targets[0].id
+                attrs, bad = set(), False
+                for m2 in idx.modules.values():
+                    allowed = set()
+                    in_init = {id(y) for f_ in ast.walk(m2.tree) if isinstance(f_, ast.FunctionDef) and f_.name == "__init__" for y in ast.walk(f_)}
+                    for x in ast.walk(m2.tree):
+                        if isinstance(x, ast.Assign) and id(x) in in_init and isinstance(x.value, ast.Name) and x.value.id == name and len(x.targets) == 1 and isinstance(x.targets[0], ast.Attribute):
+                            allowed.add(id(x.value))
+                            attrs.add(x.targets[0].attr)
+                        if isinstance(x, ast.Compare) and len(x.ops) == 1 and isinstance(x.ops[0], (ast.Is, ast.IsNot)) and isinstance(x.left, ast.Attribute) \
+                                and isinstance(x.comparators[0], ast.Name) and x.comparators[0].id == name:
+                            allowed.add(id(x.comparators[0]))
+                            attrs.add(x.left.attr)
+                    for x in ast.walk(m2.tree):
+                        if isinstance(x, ast.Name) and x.id == name and id(x) not in allowed and not (m2 is m and x is st.targets[0]):
+                            bad = True
+                        if isinstance(x, ast.Attribute) and x.attr == name:
+                            bad = True
+                        if isinstance(x, ast.alias) and (x.name == name or x.name == "*") and m2 is not m and isinstance(x, ast.alias):
+                            pass
+                    for x in ast.walk(m2.tree):
+                        if isinstance(x, ast.ImportFrom) and any(a.name == name for a in x.names):
+                            bad = True
+                if not bad and len(attrs) == 1:
+                    out[(m.name, name)] = next(iter(attrs))
+    idx._sentinel_memo = out
+    return out
+
+
+def sentinel_tests(idx, fi, fn):
+    """`self.a is not S` -> True (and `is S` -> False) where S is a one-attribute placeholder (see _sentinels) and every path
+    from the function's entry to the test passes a store `self.a = <value not mentioning S>`: the attribute cannot hold S there."""
+    sent = {nm: a for (mn, nm), a in _sentinels(idx).items() if mn == fi.module.name}
+    if not sent:
+        return fn
+    sites = [x for x in ast.walk(fn) if isinstance(x, ast.Compare) and len(x.ops) == 1 and isinstance(x.ops[0], (ast.Is, ast.IsNot)) and isinstance(x.left, ast.Attribute)
+             and isinstance(x.left.value, ast.Name) and isinstance(x.comparators[0], ast.Name) and sent.get(x.comparators[0].id) == x.left.attr]
+    if not sites:
+        return fn
+    from .cfg import CFG
+
+    try:
+        cfg = CFG(fn)
+    except Exception:
+        return fn
+    repl = {}
+    for x in sites:
+        recv, attr, S = x.left.value.id, x.left.attr, x.comparators[0].id
+        at = [n for n in cfg.nodes if isinstance(n.ast, ast.AST) and any(x is y for y in ast.walk(n.ast))]
+        at += [n for n in cfg.nodes if isinstance(n.meta.get("value"), ast.AST) and any(x is y for y in ast.walk(n.meta["value"]))]
+        stores = {n for n in cfg.nodes if n.kind == "store" and n.meta.get("attr") == attr and isinstance(n.ast, ast.Attribute) and isinstance(n.ast.value, ast.Name) and n.ast.value.id == recv
+                  and isinstance(n.meta.get("value"), ast.AST) and not any(isinstance(y, ast.Name) and y.id == S for y in ast.walk(n.meta["value"]))}
+        resets = {n for n in cfg.nodes if n.kind == "store" and n.meta.get("attr") == attr and n not in stores}
+        if at and stores and not resets and all(cfg.must_pass_through(cfg.entry, n, stores) for n in at):
+            repl[id(x)] = ast.Constant(value=isinstance(x.ops[0], ast.IsNot))
+
+    class R(ast.NodeTransformer):
+        def visit_Compare(self, n):
+            if id(n) in repl:
+                return ast.copy_location(repl[id(n)], n)
+            return self.generic_visit(n)
+
+    return R().visit(fn) if repl else fn
+
+
 def prepare(idx, fi, fn):
     """all pre-inlining rewrites on a (deep-copied) function node"""
     mod = fi.module
+    fn = sentinel_tests(idx, fi, fn)
     fn = expand_partials(idx, mod, fi, fn)
     fn = _MapFilter(idx, mod, fi).generic_visit(fn)
     fn.body = with_to_try(idx, mod, fi, fn.body, [0])
